@@ -237,6 +237,25 @@ ADD6 = {
  "C15": " Round 6: TM-XZW check encoding (lib).",
  "C17": " Round 6: WR-DICT-ENC, WR-DICT-BLOCK.",
 }
+ADD7 = {
+ "C01": " Round 7: COPY-ALL struct-value repair, SEQ-W2-SPLIT.",
+ "C03": " Round 7: OB-EOS-DIST, SEQ-R2-EOF, WR-BLOCK-SOURCE.",
+ "C04": " Round 7: TM-XZW check encoding.",
+ "C05": " Round 7: WR-WRITETO, WMW-RING.",
+ "C06": " Round 7: CE-LZMA-VERIFY.",
+ "C07": " Round 7: OB-EOS-DIST, CE-LZMA-VERIFY.",
+ "C08": " Round 7: SEQ-W2-SPLIT.",
+ "C10": " Round 7: LZMA2 writer chunk discipline and COPY-ALL (lib).",
+ "C11": " Round 7: SIB-OP, CE-CHECKID.",
+ "C12": " Round 7: SEQ-R2-EOF, WR-BLOCK-SOURCE.",
+ "C13": " Round 7: SEQ-R2-EOF, WR-BLOCK-SOURCE.",
+ "C14": " Round 7: WMW-PROPS.",
+ "C15": " Round 7: CE-CHUNKHDR, OB-LCLP (lib).",
+ "C16": " Round 7: SEQ-W2-SPLIT, SEQ-R2-EOF, WMC-READ.",
+ "C17": " Round 7: SEQ-W2-SPLIT.",
+}
+for pid, text in ADD7.items():
+    ADD6[pid] = ADD6.get(pid, "") + text
 for pid, text in ADD6.items():
     ADD5[pid] = ADD5.get(pid, "") + text
 for pid, text in ADD5.items():
